@@ -5,6 +5,7 @@ package eng
 // axioms, boxing of interface values, ghost observer fields.
 
 import (
+	"path/filepath"
 	"fmt"
 	"go/types"
 	"sort"
@@ -57,6 +58,7 @@ type Defs struct {
 	funcs  map[string]*funcSig
 	boxes  map[string]boxInfo
 	stack  []*SpecSym
+	stdCanon map[string]*ssa.Function // stdlib spec functions: one representative for all package copies
 }
 
 type boxInfo struct {
@@ -84,7 +86,21 @@ func (d *Defs) noteBox(t types.Type, s *Sort) {
 	d.boxes[name] = boxInfo{typ: t, sort: s, tag: int(tag.Int.Int64())}
 }
 
+// isStdSpec: the function comes from a copy of a /verif/stdlib file (the same source is copied into
+// every package that `use`s it).
+func isStdSpec(fn *ssa.Function) bool {
+	if fn == nil || fn.Prog == nil || !fn.Pos().IsValid() {
+		return false
+	}
+	return strings.HasPrefix(filepath.Base(fn.Prog.Fset.Position(fn.Pos()).Filename), "zz_verif_std_")
+}
+
 func symName(fn *ssa.Function) string {
+	if isStdSpec(fn) {
+		// one symbol for all copies: lemmas and contracts of different packages about the same stdlib
+		// spec function (indexB, verifUnescVal, ...) speak about the same thing
+		return "std." + sanitize(fn.Name())
+	}
 	pkg := ""
 	if fn.Pkg != nil {
 		pkg = fn.Pkg.Pkg.Name()
@@ -96,6 +112,18 @@ func symName(fn *ssa.Function) string {
 
 // sym returns (creating on demand) the symbol of a spec function.
 func (d *Defs) sym(fn *ssa.Function) (*SpecSym, error) {
+	if isStdSpec(fn) {
+		// canonical representative: the first copy seen
+		if d.stdCanon == nil {
+			d.stdCanon = map[string]*ssa.Function{}
+		}
+		k := fn.Name() + "|" + fn.Signature.String()
+		if c, ok := d.stdCanon[k]; ok {
+			fn = c
+		} else {
+			d.stdCanon[k] = fn
+		}
+	}
 	if s, ok := d.syms[fn]; ok {
 		if s.inProg {
 			// recursion: everything on the stack from s upwards is recursive
@@ -239,7 +267,10 @@ func (d *Defs) extSym(fc *FuncContract, fn *ssa.Function) ([]string, []*Sort, er
 	}
 	x := &ExtSym{FC: fc, Fn: fn}
 	sig := fn.Signature
-	base := "ext." + d.e.PkgOf[fc].Pkg.Name() + "." + sanitize(strings.NewReplacer("(", "", ")", "", "*", "").Replace(fc.Key))
+	// one SMT symbol per external function, whichever package's contract file describes it: the assumed
+	// contracts of several packages about the same function then speak about the same symbol (a
+	// contract of package uri stated with http.Header.Values is usable by a caller in another package)
+	base := "ext." + sanitize(strings.NewReplacer("(", "", ")", "", "*", "").Replace(fn.String()))
 	for i := 0; i < sig.Results().Len(); i++ {
 		rs, err := d.e.Sorts.SortOf(sig.Results().At(i).Type())
 		if err != nil {
@@ -302,6 +333,12 @@ func (d *Defs) extAxioms(x *ExtSym) error {
 	var ens []*Term
 	for i, a := range apps {
 		ens = append(ens, d.e.rangeFact(a, fn.Signature.Results().At(i).Type()))
+		// a pointer returned by a pure (deterministic, non-allocating) function is not an object that the
+		// function under verification allocates: it is distinct from every allocation of the current run
+		if x.sorts[i] == SRef && len(x.FC.Fresh) == 0 {
+			d.e.Defs.noteFunc("preexisting", []*Sort{SRef}, SBool)
+			ens = append(ens, App("preexisting", SBool, a))
+		}
 	}
 	for _, c := range x.FC.Ensures {
 		t, err := fr.evalClause(x.FC, c, params, results, nil, fr.st, fr.st)
